@@ -13,6 +13,7 @@ from vunit import Raw, Prelude, Fn, Decl
 from common import *
 
 NAME = 'c12_extract'
+_RCV = r'(Path::new\(&[\w.]+\)|\b\w+)'   # a path-valued receiver: a name or `Path::new(&x)`
 ERR = (re.compile(r'Error::InvalidDestinationPath \{\s*path: [^,]*,\s*desc: ("[^"]*"),\s*\}', re.S), r'Error::InvalidDestinationPath { path: err_text(), desc: \1 }', None,
        'R12-error path text: any String')
 
@@ -137,6 +138,10 @@ pub fn has_component(p: &Path, c: Component) -> (r: bool)
     ensures r == exists|j: int| 0 <= j < p.comps@.len() && #[trigger] p.comps@[j] == comp_view(c),
 { unimplemented!() }
 #[verifier::external_body]
+pub fn has_abnormal_component(p: &Path) -> (r: bool)
+    ensures r == exists|j: int| 0 <= j < p.comps@.len() && !(#[trigger] p.comps@[j] is Normal),
+{ unimplemented!() }
+#[verifier::external_body]
 pub fn any_is_prefix<P: HasComps>(links: &Vec<PathBuf>, p: &P) -> (r: bool)
     ensures r == exists|j: int| 0 <= j < links@.len() && is_prefix((#[trigger] links@[j]).comps@, p.comps_view()),
 { unimplemented!() }
@@ -230,7 +235,9 @@ pub proof fn lemma_inside_join(root: Seq<Comp>, rel: Seq<Comp>, created: Seq<Seq
              ('        let dest = dest.as_ref();\n', '        let ghost mut created: Seq<Seq<Comp>> = Seq::empty();   // ghost: the symbolic links created so far\n', 1, 'R5-as_ref on &Path is the identity; ghost state declared'),
              ('relative_to_root(&file.metadata.path)?', 'relative_to_root(file.metadata.path.as_path())?', 1, 'R5-&PathBuf to &Path deref'),
              (re.compile(r'\b(\w+)\.iter\(\)\.any\(\|(\w+)\| (\w+)\.starts_with\(\2\)\)'), r'any_is_prefix(&\1, &\3)', 1, 'R37-any element is a prefix of the path'),
-             (re.compile(r'\b(\w+)\s*\.components\(\)\s*\.any\(\s*\|(\w+)\|\s*(?:\2 == (Component::\w+)|matches!\(\2, (Component::\w+)\))\s*\)'), lambda m: 'has_component(%s, %s)' % (m.group(1), m.group(3) or m.group(4)), None, 'R46-some component of the path is of a given kind'),
+             (re.compile(_RCV + r'\s*\.components\(\)\s*\.any\(\s*\|(\w+)\|\s*(?:\2 == (Component::\w+)|matches!\(\2, (Component::\w+)\))\s*\)'), lambda m: 'has_component(%s, %s)' % (m.group(1), m.group(3) or m.group(4)), None, 'R46-some component of the path is of a given kind'),
+             (re.compile(_RCV + r'\s*\.components\(\)\s*\.any\(\s*\|(\w+)\|\s*!matches!\(\2, Component::Normal\(_\)\)\s*\)'), r'has_abnormal_component(\1)', None, 'R46-some component of the path is not a plain name'),
+             (re.compile(_RCV + r'\s*\.components\(\)\s*\.all\(\s*\|(\w+)\|\s*matches!\(\2, Component::Normal\(_\)\)\s*\)'), r'!has_abnormal_component(\1)', None, 'R46-every component of the path is a plain name'),
              (re.compile(r'fs::(create_dir_all|remove_file)\(&(\w+)\)'), r'fs::\1(&\2, Ghost(dest.comps@), Ghost(created))', None, 'R38-fs call with the ghost extraction context'),
              (re.compile(r'fs::set_permissions\(&(\w+), (\w+)\)'), r'fs::set_permissions(&\1, \2, Ghost(dest.comps@), Ghost(created))', None, 'R38'),
              (re.compile(r'fs::File::create\(&(\w+)\)'), r'fs::File::create(&\1, Ghost(dest.comps@), Ghost(created))', None, 'R38'),
